@@ -202,9 +202,11 @@ pub fn gen_case(r: &mut Rng) -> LedgerCase {
                 amount_per_share: pos(rand_amount(r, 50, 4)),
             })
         } else {
-            let forms: [(&str, &str, bool); 10] = [
+            // (the last three: ratios not in lowest terms — "2-for-4" is "1-for-2")
+            let forms: [(&str, &str, bool); 13] = [
                 ("2", "1", false), ("3", "1", false), ("3", "2", false), ("1", "2", true), ("1", "2", false),
                 ("1", "3", true), ("1", "3", false), ("7", "3", false), ("1.5", "1", false), ("2", "3", true),
+                ("2", "4", true), ("3", "6", true), ("2", "6", true),
             ];
             let (post, pre, mut int_only) = *r.pick(&forms);
             if int_only && !offend && !(bal[ai] * dec(post) / dec(pre)).is_integer() {
